@@ -17,6 +17,7 @@
 #include <fstream>
 #include <cfloat>
 #include <set>
+#include <mutex>
 #include <unistd.h>
 
 namespace {
@@ -217,9 +218,11 @@ void Monitor::phase(int tag, const std::vector<cell_ptr>& lst) {
     }
 }
 static void phase_hook(int tag, const std::vector<std::shared_ptr<cell>>* lst) { if (g_mon && lst) g_mon->phase(tag, *lst); }
-static void remesh_hook(int kind, int stage, cell*, unsigned, unsigned, unsigned) { if (g_mon && stage == VERIF_STAGE_POST && kind != VERIF_REMESH_PASS) g_mon->remesh_ops++; }
+// (both hooks are called from the parallel phases of the solver when it runs with several threads: the monitor's own state is guarded)
+static std::mutex g_hook_mu;
+static void remesh_hook(int kind, int stage, cell*, unsigned, unsigned, unsigned) { if (g_mon && stage == VERIF_STAGE_POST && kind != VERIF_REMESH_PASS) { std::lock_guard<std::mutex> lk(g_hook_mu); g_mon->remesh_ops++; } }
 static uint64_t g_rng_base = 0; static std::map<std::pair<int, uint64_t>, uint64_t>* g_rng_ctr = nullptr;
-static uint64_t rng_hook(int site, uint64_t ctx) { uint64_t k = (*g_rng_ctr)[{site, ctx}]++; return mix64(hash_combine(hash_combine(g_rng_base, (uint64_t)site * 1315423911ULL + ctx), k)); }
+static uint64_t rng_hook(int site, uint64_t ctx) { uint64_t k; { std::lock_guard<std::mutex> lk(g_hook_mu); k = (*g_rng_ctr)[{site, ctx}]++; } return mix64(hash_combine(hash_combine(g_rng_base, (uint64_t)site * 1315423911ULL + ctx), k)); }
 
 // ------------------------------------------------------------------------------------------------------------------
 // Case description
